@@ -427,6 +427,43 @@ fn build_spaces(thorough: bool) -> Vec<Sub> {
             }),
         });
     }
+    // (b3) control attributes x sibling sequences: every sequence of <= 3 siblings, each one an element (`<a …/>` or `<block …>t</block>`)
+    // with every ordered selection of <= 2 of the control attributes wx:if / wx:elif / wx:else / wx:for / wx:key / slot, or a comment;
+    // at the top level, inside an element and inside a loop (the parser joins condition branches to the sibling in front of them and
+    // wraps loops around the result: every combination of the two on neighbouring siblings, well-formed or not)
+    {
+        const CTRL: &[&str] = &[" wx:if=\"{{x}}\"", " wx:elif=\"{{y}}\"", " wx:else", " wx:for=\"{{l}}\"", " wx:key=\"k\"", " slot=\"s\""];
+        let mut sels: Vec<String> = vec![String::new()];
+        for a in CTRL {
+            sels.push(a.to_string());
+            for b in CTRL {
+                if a != b {
+                    sels.push(format!("{}{}", a, b));
+                }
+            }
+        }
+        let mut sibs: Vec<String> = vec!["<!-- c -->".to_string()];
+        for sel in sels.iter() {
+            sibs.push(format!("<a{}/>", sel));
+            sibs.push(format!("<block{}>t</block>", sel));
+        }
+        let sibs = std::sync::Arc::new(sibs);
+        let asib = sibs.len() as u64;
+        const SIB_CONTEXTS: &[(&str, &str)] = &[("", ""), ("<v>", "</v>"), ("<e wx:for=\"{{m}}\">", "</e>")];
+        for (pre, suf) in SIB_CONTEXTS.iter() {
+            let size = str_space_size(asib, 3);
+            let (pre, suf) = (pre.to_string(), suf.to_string());
+            let sibs = sibs.clone();
+            subs.push(Sub {
+                name: format!("control-attribute-siblings:{}…{}:len<=3", pre, suf),
+                size,
+                gen: Box::new(move |i| {
+                    let w: String = str_unrank(i, asib, 3).iter().map(|k| sibs[*k].as_str()).collect();
+                    Case::Tmpl { path: "p".to_string(), src: format!("{}{}{}", pre, w, suf) }
+                }),
+            });
+        }
+    }
     // (c) deviation-bounded mutants of the well-formed corpus (k = 1; k = 2 for short seeds when thorough)
     let mut devs: Vec<String> = vec![];
     for seed in SEEDS {
